@@ -173,7 +173,7 @@ def tree(rng, job, maxlen=3000):
 
 def damage(rng):
     k = rng.choice(['file_rand', 'file_rand', 'file_burst', 'file_zero', 'file_all', 'hash', 'parity', 'track', 'both', 'both',
-                    'trunc', 'extend', 'extend', 'cut_track', 'cut_track', 'none'])
+                    'trunc', 'extend', 'extend', 'cut_track', 'cut_track', 'none', 'over1', 'over1'])
     d = {'kind': k, 'targets': rng.choice(['one', 'all', 'all']), 'weight': rng.choice([1, 1, 2, 3, 5, 8, 20, 60, 300, 1500])}
     if k in ('hash', 'parity', 'track', 'both'):
         d['nblocks'] = rng.choice([1, 2, 5, 'all'])
@@ -226,6 +226,12 @@ def corpus(rng):
         # all-zero content, damaged (codecs 1/2 strip leading zero coefficients of the parity they return)
         for algo in (1, 2, 3, 4):
             out.append(dict(b, algo=algo, mb=16, tree={'zero': bytes(90).hex()}, damage={'kind': 'file_rand', 'weight': 2, 'targets': 'all'}))
+        # one symbol beyond the errors-only capacity with an ODD number of parity symbols, hash damaged too (codecs 1/2 once
+        # returned a codeword at distance (parity+1)/2 that the tools committed): nothing outside the radius may be written
+        for algo in (1, 2, 3):
+            for dseed in (1, 2, 3):
+                out.append(dict(b, algo=algo, mb=20, size=200, rates=[0.17] * len(rates), tree={'f.bin': content(r, 150, 'rand').hex()},
+                                damage={'kind': 'over1', 'targets': 'all'}, dseed=dseed))
         # truncation with --ignore_size, hash bytes only, parity only with the syndrome pre-check
         out.append(dict(b, tree={'a.bin': mid}, ignore_size=True, damage={'kind': 'trunc', 'weight': 333, 'targets': 'all', 'also_file': True, 'fweight': 3}))
         out.append(dict(b, tree={'a.bin': mid}, damage={'kind': 'hash', 'weight': 3, 'nblocks': 3, 'targets': 'all'}))
@@ -235,8 +241,65 @@ def corpus(rng):
     return out
 
 
+def facade_answer(algo, n, k, m, e):
+    """what ECCMan.decode does with the received (m, e) and whether the tools would commit it on the syndrome check alone"""
+    from props import rs_common as R
+    c = R.codec(algo, n, k)
+    with R.quiet():
+        try:
+            rm, re_ = c.decode(m, e)
+            rm, re_ = bytes(rm), bytes(re_)
+        except Exception as ex:
+            return None, type(ex).__name__
+        ok = bool(c.check(rm, re_))
+    return (rm, re_, ok), None
+
+
+def facade_radius_case(algo, n, k, m, e):
+    """C04's block clause at the facade boundary: an answer that passes the check and changes the message must lie within
+    the decoding radius (errors only: 2 * #changed symbols of message+parity <= n-k)."""
+    ans, exc = facade_answer(algo, n, k, m, e)
+    if ans is None:
+        return True, {'decoder': exc}
+    rm, re_, ok = ans
+    d = sum(1 for x, y in zip(m + e, rm + re_) if x != y) + abs(len(m + e) - len(rm + re_))
+    bad = ok and rm != m and 2 * d > n - k
+    return not bad, {'answer': [rm.hex(), re_.hex()], 'check': ok, 'changed_symbols': d, 'n-k': n - k}
+
+
+def facade_radius_stream(ctx):
+    """codecs 1-4, small codes with an ODD number of parity symbols, one symbol beyond capacity spread over message and parity:
+    the region where a decoder can return a codeword at distance (n-k+1)/2 (ambiguous decoding)"""
+    from props import rs_common as R
+    rng = ctx.rng
+    trials = 900 if ctx.tier == 'quick' else 6000
+    for algos in ((1, 2, 3), (4,)):
+        for algo in algos:
+            for n, k in ((6, 5), (8, 5), (10, 7), (12, 7), (20, 15), (9, 2)):
+                c = R.codec(algo, n, k)
+                t = (n - k) // 2
+                for _ in range(trials // 6):
+                    m0 = bytes(rng.randrange(256) for _ in range(k)); p0 = bytes(c.encode(m0)); w = m0 + p0
+                    pos = rng.sample(range(n), min(n, t + 1 + rng.choice([0, 0, 1])))
+                    r = bytearray(w)
+                    for p in pos:
+                        r[p] = rng.choice([x for x in range(256) if x != w[p]])
+                    r = bytes(r)
+                    holds, det = facade_radius_case(algo, n, k, r[:k], r[k:])
+                    ctx.evaluations += 1
+                    ctx.count('facade_radius:' + ('refused' if 'decoder' in det else 'answered'))
+                    case = {'kind': 'facade', 'algo': algo, 'n': n, 'k': k, 'm': r[:k].hex(), 'e': r[k:].hex()}
+                    if 'answer' in det and det['check'] and det['answer'][0] != r[:k].hex():
+                        ctx.nontriv(('facade', algo, n, k, r))
+                    if not holds:
+                        ctx.fail(case, det)
+                    else:
+                        ctx.traces += 1
+
+
 def run(ctx):
     rng = ctx.rng
+    facade_radius_stream(ctx)
     cj = corpus(rng)
     for job, res in zip(cj, pipe.run_jobs(cj)):
         handle(ctx, job, res, 'corpus')
@@ -249,6 +312,9 @@ def run(ctx):
 
 
 def replay_case(ctx, case):
+    if case.get('kind') == 'facade':
+        holds, det = facade_radius_case(case['algo'], case['n'], case['k'], bytes.fromhex(case['m']), bytes.fromhex(case['e']))
+        return dict(det, holds=holds)
     res = pipe.run_jobs([case])[0]
     if not res.get('ok'):
         return {'holds': bool(res.get('ambiguous')), 'note': 'scenario could not be run', 'detail': {k: res.get(k) for k in ('gen', 'ambiguous', 'harness_error')}}
